@@ -603,6 +603,35 @@ pub fn fals_c09(rng: &mut Rng, thorough: bool) -> Fals {
             }
         }
     }
+    // networks without a dense layer at the top level (fully convolutional) with dropout: the flags
+    // are cleared after learn and prediction equals the dropout-free twin carrying the same parameters
+    for _ in 0..(if thorough { 60 } else { 10 }) {
+        let input = Sh::Sp(1, rng.range(2, 4), rng.range(2, 4));
+        let depth = rng.range(1, 3);
+        let (mut spec, shapes) = match rand_seq(rng, &o, input, depth, &["conv", "deconv", "conv"], false) { Some(x) => x, None => continue };
+        if let Some(LayerSpec::One(Simple::Conv { dropout, .. })) | Some(LayerSpec::One(Simple::Deconv { dropout, .. })) = spec.layers.first_mut() {
+            *dropout = Some(0.5);
+        }
+        spec.opt = Opt::SGD { lr: 0.05, decay: None };
+        spec.obj = Obj::MSE;
+        let twin_spec = without_dropout(&spec);
+        let outsh = *shapes.last().unwrap();
+        let data = rand_data(rng, 2, input, outsh, Obj::MSE);
+        let probe = rand_input(rng, input, 2);
+        let r = guard(|| {
+            let mut n = spec.build();
+            run_learn(&mut n, &data, None, 1, 2);
+            let mut t = twin_spec.build();
+            copy_params(&n, &mut t);
+            (n.verif_flags(), n.predict(&probe), t.predict(&probe))
+        });
+        if let Ok((flags, a, b)) = r {
+            f.check("after-learn/no-validation/no-top-level-dense", flags.iter().all(|x| *x != Some(true)) && t_eq(&a, &b),
+                    "after learn a network without a top-level dense layer keeps a training flag raised or predicts with dropout", || {
+                format!("{}; training data {} -> flags {:?}; prediction {} vs dropout-free {}", fmt_spec(&spec), fmt_pairs(&data), flags, fmt_t(&a), fmt_t(&b))
+            });
+        }
+    }
     f
 }
 
